@@ -72,3 +72,5 @@ def check(v, tier, opts):
                      "built from (months, secs, nanos) directly")
     kani_engine.decide(v, "C17", tier, opts)
     return v.finish(RULE)
+
+READY = True
